@@ -39,7 +39,7 @@ SeqToSet(s) == {s[i] : i \in 1..Len(s)}
 NewObj(o) == [cfg |-> [S |-> o.S, M |-> o.mode, vars |-> SeqToSet(o.vars)],
               phase |-> "new", phi |-> Null, inst |-> Null,
               fed |-> [v \in SeqToSet(o.vars) |-> <<>>], emitted |-> <<>>, nupd |-> 0, mu |-> 0, last |-> <<>>, rets |-> <<>>, lastw |-> <<>>,
-              dead |-> FALSE, gets |-> <<>>,
+              dead |-> FALSE, poisoned |-> FALSE, gets |-> <<>>,
               \* binding to the operational model DenseOn!UpdateC: its memory, whether it applies, first update that differed
               mem |-> <<>>, modelled |-> FALSE, drift |-> 0, compared |-> 0, mout |-> <<>>]
 InitMs(c) == [i \in 1..Len(c.objs) |-> NewObj(c.objs[i])]
@@ -194,8 +194,12 @@ ApplyUpdate(m, e, step) ==
                         !.rets = Append(m.rets, e.ret), !.lastw = e.w,
                         !.mu = IF m.nupd + 1 > m.mu THEN m.nupd + 1 ELSE m.mu]   \* mu: most updates in one segment
         f0 == ExcClass(TRUE, e, "update.exc", step)
+        poison == e.exc \in ArithExc /\ HasData(m1) /\ AnyUndef(m1, m.phi)
         f1 == IF f0 = Ok /\ ~Monotone(m1.emitted) THEN F("update.monotone", step, "non-decreasing time-stamps", m1.emitted) ELSE Ok
         f2 == IF f0 = Ok /\ ~e.same THEN F("update.argsMutated", step, "unchanged", "changed") ELSE Ok IN
+    \* an update() that raised on an undefined value (sqrt of a negative sample, division by 0): the state is unknown until the
+    \* next reset(), which must bring the monitor back to its initial state
+    IF poison THEN R([m EXCEPT !.dead = TRUE, !.poisoned = TRUE], Ok, 1) ELSE
     R(ModelStep(m1, e), f0 \o f1 \o f2, 0)
 
 \* the value part of the online contract is evaluated when the whole signal is known (end of the case, or a reset)
@@ -263,6 +267,8 @@ ApplyGet(m, e, obj, step) ==
 
 Apply(c, e, step) ==
   LET m == ms[e.o] obj == c.objs[e.o] IN
+  IF m.dead /\ m.poisoned /\ e.a = "reset" THEN
+    (LET r == ApplyReset([m EXCEPT !.dead = FALSE], e, step) IN R([r.m EXCEPT !.dead = FALSE, !.poisoned = FALSE], r.f, r.u)) ELSE
   IF m.dead THEN R(m, Ok, 0) ELSE
   CASE e.a = "parse"    -> ApplyParse(m, e, obj, step)
     [] e.a = "pastify"  -> ApplyPastify(m, e, step)
